@@ -160,6 +160,14 @@ class MarginLoans(base.LendingStrategy):
     def _check_margin_level(
             self, updated_balances: ValueMapDict, updated_holds: ValueMapDict, updated_borrowed: ValueMapDict
     ):
+        assert self._exchange_ctx, "Not yet connected with the exchange"
+
+        # The margin level is a requirement for borrowing. Updates that don't borrow, like releasing funds on hold,
+        # filling orders or repaying loans, are not subject to it.
+        borrowed = self._exchange_ctx.account_balances.borrowed
+        if all(amount <= borrowed.get(symbol, Decimal(0)) for symbol, amount in updated_borrowed.items()):
+            return
+
         margin_level = self._calculate_margin_level(updated_balances, updated_holds, updated_borrowed)
         if margin_level > Decimal(0) and margin_level < Decimal(100):
             raise errors.NotEnoughBalance(f"Margin level too low {margin_level}")
